@@ -268,19 +268,23 @@ Definition move_to_failed (s : state) (n : name) (t : tracker) : state :=
 
 (* One iteration of the loop in doEthTransitions for the ongoing tracker [n].  An error returned by
    the transition function means `continue`: the session is never committed, nothing is written.
-   The job-store writes themselves are assumed not to fail. *)
+   The job-store writes themselves are assumed not to fail; with that, no branch reads [nl] any
+   more (the redeem steps VerifyRedeem / RedeemConfirmed can return "failed to get job", but they
+   never change the tracker, so the dropped session contains nothing). *)
 Definition transition (nl : nodelocal) (s : state) (n : name) : state * out :=
   match ongoing s !! n with
   | None => (s, Ok)
   | Some t =>
       let st := t_state t in
-      let nojob := nl_witness nl && negb (inb n (nl_bjob nl)) in
       if (t_type t =? T_LOCK) || (t_type t =? T_LOCKERC) then
         if st =? S_NEW then (upd_ongoing s (<[n := set_state t S_BUSYBROADCASTING]> (ongoing s)), Ok)
         else if st =? S_BUSYBROADCASTING then
-          (* Finalizing: a witness node that has not voted looks its broadcast job up first *)
-          if nojob && negb (voted t (nl_addr nl)) then (s, Ok)
-          else if 0 <? yes_votes t + no_votes t
+          (* Finalizing: the state advances as soon as there is a vote; what the node then does with
+             its own job store (look the broadcast job up, schedule a finality check) no longer
+             decides anything: since /repo 3dd4152 a missing broadcast job is not an error (before,
+             a witness node that had not voted and held no job returned an error and the state
+             change was dropped: former finding C15.lock_finalizing_depends_on_local_jobs) *)
+          if 0 <? yes_votes t + no_votes t
                then (upd_ongoing s (<[n := set_state t S_BUSYFINALIZING]> (ongoing s)), Ok)
                else (s, Ok)
         else if st =? S_BUSYFINALIZING then
@@ -343,6 +347,13 @@ Definition valid (E : env) (o : op) : bool :=
 (* one delivered transaction / one block end: a transaction that does not validate has no effect *)
 Definition vstep (E : env) (s : state) (o : op) : state * out :=
   if valid E o then step E s o else (s, Fail).
+
+(* two operations that differ at most in the node-local inputs of a block end *)
+Definition op_sim (o o' : op) : Prop :=
+  match o, o' with
+  | EndBlock _ names, EndBlock _ names' => names = names'
+  | _, _ => o = o'
+  end.
 
 Definition run (E : env) (s : state) (ops : list op) : state :=
   fold_left (fun s o => (vstep E s o).1) ops s.
